@@ -24,6 +24,7 @@ func init() {
 			{ID: "C14-R7", Doc: "local limiter Acquire(n)/Release(n) pairing", Run: c14r7},
 			{ID: "C14-R8", Doc: "demand accounting: need/pending are written where the matching event is consumed; machine starts are capped by demand and the parallelism limit, less present and pending capacity", Run: c14r8},
 			{ID: "C14-R9", Doc: "indexed heaps keep index == position; load changes are followed by a heap repair", Run: c14r9},
+			{ID: "C08-R10", Doc: "a composed pragma answers \"some element asks for it\": an Exclusive task is clamped to the whole machine whatever other pragmas accompany it (shared)", Run: c08r10},
 		},
 	})
 }
